@@ -765,6 +765,50 @@ fn sequence_fallback(o: &Opts) -> Option<String> {
     Some(path)
 }
 
+/// Diagnostic (not a check): replay the logic of the crate's own `quire32::ops::test_quire_mul_sub`
+/// (q -= (a,b); q += c; compare with P32E2::from((-a).mul_add(b, c)) in f64) on sampler-distributed
+/// operands, and say, for each disagreement, which side the exact reference supports.
+fn probe_suite_fma(n: u64) -> i32 {
+    use rand::Rng;
+    use softposit::{P32E2, Q32E2};
+    let mut prng = prng::Prng::for_run(1, 99, 0);
+    let mut sim = rngsim::SimRng::new(&mut prng, rngsim::RngMode::Uniform, false);
+    sim.cap_factor = u32::MAX / 2048;
+    let qt = posit_ref::QT::Q32;
+    let (mut disagree, mut quire_wrong, mut f64_wrong) = (0u64, 0u64, 0u64);
+    for i in 0..n {
+        if i % 1024 == 0 {
+            sim.begin_sample();
+            sim.served.clear();
+        }
+        let a: P32E2 = sim.gen();
+        let b: P32E2 = sim.gen();
+        let c: P32E2 = sim.gen();
+        let mut q = Q32E2::init();
+        q -= (a, b);
+        q += c;
+        let got = q.to_posit().to_bits();
+        let f = (-f64::from(a)).mul_add(f64::from(b), f64::from(c));
+        let via_f64 = P32E2::from(f).to_bits();
+        if got != via_f64 {
+            disagree += 1;
+            let exact = posit_ref::product_units(qt, a.to_bits(), b.to_bits()).unwrap().neg().add(&posit_ref::posit_units(qt, c.to_bits()).unwrap());
+            let want = posit_ref::round_exact(qt, &exact).posit;
+            if got != want {
+                quire_wrong += 1;
+            }
+            if via_f64 != want {
+                f64_wrong += 1;
+            }
+            if disagree <= 5 {
+                println!("a={:08x} b={:08x} c={:08x}: quire={:08x} f64-path={:08x} exact-reference={:08x}", a.to_bits(), b.to_bits(), c.to_bits(), got, via_f64, want);
+            }
+        }
+    }
+    println!("probe: {n} triples, {disagree} disagreements between the quire and the suite's f64 reference; quire differs from the exact reference in {quire_wrong}, f64 path differs in {f64_wrong}");
+    0
+}
+
 const HANG_OBSERVED: &str = "no return within 10 s";
 
 /// A worker was stuck on run `run`: regenerate it in a child process with tracing, kill the child,
@@ -1151,6 +1195,7 @@ fn main() {
         },
         Some("trace") => cmd_trace(&args[1..]),
         Some("seqfind") => cmd_seqfind(&args[1..]),
+        Some("probe-suite-fma") => probe_suite_fma(args.get(1).and_then(|v| v.parse().ok()).unwrap_or(10_000_000)),
         Some("replay") => match args.get(1) {
             Some(p) => do_replay(p),
             None => {
